@@ -82,6 +82,16 @@ def _arg_is(pos, text):
     return lambda c: len(c.args) > pos and ast.unparse(c.args[pos]) == text
 
 
+def _assigned_from_param(cls, method, param):
+    """self.<x> = <param> in cls.<method> (exactly one such attribute) -> x"""
+    f = cls.method(method)
+    if f is None:
+        return None
+    found = {_self_attr(t) for n in ast.walk(f.node) if isinstance(n, ast.Assign) and isinstance(n.value, ast.Name) and n.value.id == param
+             for t in n.targets if _self_attr(t)}
+    return found.pop() if len(found) == 1 else None
+
+
 def discover(index):
     """-> {(class site, found name): canonical name}"""
     out = {}
@@ -117,6 +127,8 @@ def discover(index):
             put(cls, _subscript_store(cls, "add", None, lambda v: isinstance(v, ast.Name) and v.id == "sub_bus"), "_subs")
         elif q == "Arbiter":
             put(cls, _method_call_receiver(cls, "add", "append", _arg_is(0, "intr_bus")), "_intrs")
+        elif q == "WishboneCSRBridge":
+            put(cls, _assigned_from_param(cls, "__init__", "csr_bus"), "_csr_bus")
     return out
 
 
@@ -138,10 +150,21 @@ def apply(index, mapping):
                                 owners.setdefault(a, set()).add(cls.site)
     done = {}
     for (site, found), canonical in mapping.items():
-        if owners.get(found, set()) - {site}:
-            continue                                    # the name is also a field of another class: leave it alone
+        others = owners.get(found, set()) - {site}
+        if others and not all(mapping.get((o, found)) == canonical for o in others):
+            continue                                    # the name is also a field of another class (with another role): leave it alone
         if canonical in owners and site in owners[canonical]:
             continue                                    # canonical name already in use in that class
+        # a read-only alias property under the old (canonical) name -- `def _subs(self): return self._sub_buses` -- would become
+        # `return self._subs` after the rename: it is the attribute itself, so the property is dropped from the analysis
+        for cls in index.all_classes():
+            if cls.site == site and cls.method(canonical) is not None:
+                f = cls.method(canonical)
+                body = [s for s in f.node.body if not (isinstance(s, ast.Expr) and isinstance(s.value, ast.Constant))]
+                if f.is_property and len(body) == 1 and isinstance(body[0], ast.Return) and _self_attr(body[0].value) == found:
+                    cls.methods.pop(canonical, None)
+                    if f.node in cls.node.body:
+                        cls.node.body.remove(f.node)
         for m in index.modules.values():
             for n in ast.walk(m.tree):
                 if isinstance(n, ast.Attribute) and n.attr == found:
@@ -152,6 +175,34 @@ def apply(index, mapping):
 
 # static helper methods that the rules refer to as methods of a class; a maintainer may turn them into module-level functions
 HELPER_METHODS = {"MemoryMap": ("_align_up", "_translate")}
+
+
+def attach_aliased_methods(index):
+    """`name = staticmethod(fn)` / `name = fn` in a class body, with fn a function of the package (possibly imported from
+    another module): the class has a (static) method `name` whose body is fn's.  Returns {class.method: function site}."""
+    from .index import FuncInfo
+    done = {}
+    for cls in index.all_classes():
+        for name, val in list(cls.class_attrs.items()):
+            fn = None
+            if isinstance(val, ast.Call) and isinstance(val.func, ast.Name) and val.func.id in ("staticmethod",) and len(val.args) == 1 and \
+                    isinstance(val.args[0], ast.Name):
+                fn = val.args[0].id
+            if fn is None or cls.method(name) is not None:
+                continue
+            target = index.resolve_function(cls.module, fn)
+            if target is None:
+                continue
+            clone = FuncInfo(target.node, cls, target.module)
+            clone.name = name
+            clone.qual = cls.qual + "." + name
+            clone.site = f"{cls.module.rel}::{clone.qual}"
+            if "staticmethod" not in clone.decorators:
+                clone.decorators = list(clone.decorators) + ["staticmethod"]
+            clone.aliased_from = target.site
+            cls.methods.setdefault(name, []).append(clone)
+            done[clone.qual] = target.site
+    return done
 
 
 def relocate_helpers(index):
@@ -377,7 +428,7 @@ def _resolve_helper(index, fi, call):
         for k in index.all_classes():
             if k is not target.cls and target.cls in index.bases_of(k) and k.method(name) is not None:
                 return None
-    if f"{target.module.rel}::{target.qual}" in _anchors() and not _OPTS["allow_anchors"]:
+    if (f"{target.module.rel}::{target.qual}" in _anchors() or target.site in _anchors()) and not _OPTS["allow_anchors"]:
         return None
     if target.cls is not None and isinstance(f, ast.Attribute) and f.value.id == "self" and "classmethod" in target.decorators and \
             any(isinstance(n, ast.Name) and n.id == target.node.args.args[0].arg for s in target.node.body for n in ast.walk(s)):
@@ -962,3 +1013,410 @@ def flatten_function(index, fi, exclude=()):
     ast.fix_missing_locations(node)
     clone.flattened = sorted({h for hs in done.values() for h in hs})
     return clone
+
+
+# ---- match / case ------------------------------------------------------------------------------------------------------------
+def desugar_matches(index):
+    """`match subject:` with value patterns (constants, dotted names such as enum members), alternatives of those, class
+    patterns without arguments (`case dict():`) and a final wildcard is the if / elif / else chain it abbreviates:
+    value patterns compare with ==, class patterns with isinstance.  Other patterns (captures, sequences, mappings, guards
+    with captures) are left alone and stay unsupported downstream."""
+    done = {}
+    n_ = [0]
+
+    def test_of(subj, pat):
+        import copy
+        if isinstance(pat, ast.MatchValue):
+            return ast.Compare(left=copy.deepcopy(subj), ops=[ast.Eq()], comparators=[pat.value])
+        if isinstance(pat, ast.MatchSingleton):
+            return ast.Compare(left=copy.deepcopy(subj), ops=[ast.Is()], comparators=[ast.Constant(value=pat.value)])
+        if isinstance(pat, ast.MatchClass) and not pat.patterns and not pat.kwd_patterns:
+            return ast.Call(func=ast.Name(id="isinstance", ctx=ast.Load()), args=[copy.deepcopy(subj), pat.cls], keywords=[])
+        if isinstance(pat, ast.MatchOr):
+            parts = [test_of(subj, p) for p in pat.patterns]
+            return None if any(p is None for p in parts) else ast.BoolOp(op=ast.Or(), values=parts)
+        return None
+
+    def convert(st):
+        subj = st.subject
+        pre = []
+        if not isinstance(subj, (ast.Name, ast.Attribute, ast.Constant)) or any(isinstance(n, ast.Call) for n in ast.walk(subj)):
+            n_[0] += 1
+            tmp = f"__match{n_[0]}"
+            pre = [ast.Assign(targets=[ast.Name(id=tmp, ctx=ast.Store())], value=subj)]
+            subj = ast.Name(id=tmp, ctx=ast.Load())
+        chain = None
+        tail = None
+        for case in st.cases:
+            wildcard = isinstance(case.pattern, ast.MatchAs) and case.pattern.pattern is None and case.pattern.name is None
+            if wildcard and case.guard is None:
+                if chain is None:
+                    return None
+                tail.orelse = case.body
+                tail = None
+                break
+            t = test_of(subj, case.pattern)
+            if t is None:
+                return None
+            if case.guard is not None:
+                t = ast.BoolOp(op=ast.And(), values=[t, case.guard])
+            node = ast.If(test=t, body=case.body, orelse=[])
+            if chain is None:
+                chain = node
+            else:
+                tail.orelse = [node]
+            tail = node
+        if chain is None:
+            return None
+        out = pre + [chain]
+        for s in out:
+            ast.copy_location(s, st)
+            for x in ast.walk(s):
+                if not hasattr(x, "lineno"):
+                    ast.copy_location(x, st)
+            ast.fix_missing_locations(s)
+        return out
+
+    def walk_block(stmts, site):
+        i = 0
+        while i < len(stmts):
+            s = stmts[i]
+            for field in ("body", "orelse", "finalbody"):
+                blk = getattr(s, field, None)
+                if isinstance(blk, list) and blk and isinstance(blk[0], ast.stmt):
+                    walk_block(blk, site)
+            if isinstance(s, ast.Try):
+                for h in s.handlers:
+                    walk_block(h.body, site)
+            if isinstance(s, ast.Match):
+                for case in s.cases:
+                    walk_block(case.body, site)
+                new = convert(s)
+                if new is not None:
+                    stmts[i:i + 1] = new
+                    done[site] = done.get(site, 0) + 1
+                    i += len(new)
+                    continue
+            i += 1
+    for m in index.modules.values():
+        for st in m.tree.body:
+            if isinstance(st, (ast.FunctionDef, ast.ClassDef)):
+                walk_block(st.body, f"{m.rel}::{st.name}")
+    return done
+
+
+# ---- keyword arguments -------------------------------------------------------------------------------------------------------
+def positional_calls(index):
+    """A maintainer may put a `*` into the signature of a function and adapt its call sites (`sh.encode_offset(off,
+    reg_range=r)`).  The rules read calls of the functions they anchor on in the calling convention of the pinned tree
+    (core/anchor_sigs.json): an argument that the pinned signature takes positionally and that is now passed by keyword is
+    written positionally again, in the pinned order.  Only when the callee is identified by its name and the keywords it is
+    given (exactly one pinned function / method / class constructor has that name and those parameters), and only when the
+    keywords fill the pinned positional parameters without a gap."""
+    import json
+    import os
+    with open(os.path.join(os.path.dirname(__file__), "anchor_sigs.json")) as f:
+        pinned = json.load(f)
+    by_name = {}
+    for site, sg in pinned.items():
+        qual = site.split("::")[1]
+        name = qual.rsplit(".", 1)[-1]
+        is_method = "." in qual
+        pos = sg["pos"][1:] if is_method and sg["pos"] and sg["pos"][0] in ("self", "cls") else sg["pos"]
+        key = name
+        if name == "__init__" and is_method:
+            key = "<class>" + qual.rsplit(".", 2)[-2]
+        by_name.setdefault(key, []).append((tuple(pos), tuple(sg["kwonly"])))
+    done = {}
+
+    class T(ast.NodeTransformer):
+        def __init__(self, site):
+            self.site = site
+
+        def visit_Call(self, n):
+            self.generic_visit(n)
+            kws = [k for k in n.keywords if k.arg is not None]
+            if not kws or any(isinstance(a, ast.Starred) for a in n.args):
+                return n
+            name = n.func.attr if isinstance(n.func, ast.Attribute) else (n.func.id if isinstance(n.func, ast.Name) else None)
+            if name is None:
+                return n
+            cands = list(by_name.get(name, ())) + list(by_name.get("<class>" + name, ()))
+            fits = {(pos, kwo) for pos, kwo in cands if all(k.arg in pos + kwo for k in kws) and len(n.args) <= len(pos)}
+            if len(fits) != 1:
+                return n
+            pos, kwo = next(iter(fits))
+            given = {k.arg: k for k in kws}
+            new_args = list(n.args)
+            moved = []
+            for p_ in pos[len(n.args):]:
+                if p_ in given:
+                    new_args.append(given[p_].value)
+                    moved.append(given[p_])
+                else:
+                    break
+            if not moved or any(k.arg in pos and k not in moved for k in kws):
+                return n                                # nothing to move, or a gap
+            n.args = new_args
+            n.keywords = [k for k in n.keywords if k not in moved]
+            done[self.site] = done.get(self.site, 0) + 1
+            return n
+    for m in index.modules.values():
+        funcs = list(m.functions.values()) + [f for c in m.all_classes() for fs in c.methods.values() for f in fs]
+        for f in funcs:
+            T(f.site).visit(f.node)
+    return done
+
+
+# ---- pure expression functions --------------------------------------------------------------------------------------------------
+_PURE_CALLS = ("slice", "max", "min", "len", "int", "bool", "tuple", "range", "abs", "isinstance", "exact_log2", "ceil_log2", "Shape.cast")
+
+
+def _pure_expr(e):
+    for n in ast.walk(e):
+        if isinstance(n, (ast.Lambda, ast.Yield, ast.YieldFrom, ast.Await, ast.NamedExpr, ast.ListComp, ast.GeneratorExp, ast.DictComp, ast.SetComp)):
+            return False
+        if isinstance(n, ast.Call) and ast.unparse(n.func) not in _PURE_CALLS:
+            return False
+    return True
+
+
+def open_pure_functions(index):
+    """A *new* module-level function (or static method) whose body is one `return <expr>` with <expr> built from its parameters
+    by arithmetic, comparisons, attribute reads and a few pure built-ins (`slice`, `max`, `isinstance`, ...) is a named
+    expression: a call with pure arguments is replaced by the expression with the parameters substituted.  (`_segment(i,
+    granularity=g)` for `slice(i * g, (i + 1) * g)`, `is_positive_int(x)` for `isinstance(x, int) and x > 0`.)"""
+    import copy
+    done = {}
+    cands = {}
+    for m in index.modules.values():
+        for f in m.functions.values():
+            cands.setdefault(f.name, []).append(f)
+    table = {}
+    for name, fs in cands.items():
+        if len(fs) != 1:
+            continue
+        f = fs[0]
+        import os as _os
+        private_module = _os.path.basename(f.module.rel).startswith("_") and not _os.path.basename(f.module.rel).startswith("__")
+        if f.site in _anchors() or f.decorators or (not name.startswith("_") and not private_module) or name.startswith("__"):
+            continue
+        a = f.node.args
+        if a.vararg or a.kwarg or a.posonlyargs:
+            continue
+        body = [s for s in f.node.body if not (isinstance(s, ast.Expr) and isinstance(s.value, ast.Constant))]
+        if len(body) != 1 or not isinstance(body[0], ast.Return) or body[0].value is None or not _pure_expr(body[0].value):
+            continue
+        params = [x.arg for x in a.args + a.kwonlyargs]
+        free = {n.id for n in ast.walk(body[0].value) if isinstance(n, ast.Name)} - set(params)
+        if any(nm not in f.module.imports and nm not in f.module.classes and nm not in ("slice", "max", "min", "len", "int", "bool", "tuple", "range",
+                                                                                           "abs", "isinstance", "exact_log2", "ceil_log2", "Shape", "str", "float")
+               for nm in free):
+            continue
+        table[name] = f
+
+    class T(ast.NodeTransformer):
+        def __init__(self, fi):
+            self.fi = fi
+
+        def visit_Call(self, n):
+            self.generic_visit(n)
+            if not isinstance(n.func, ast.Name) or n.func.id not in table:
+                return n
+            target = index.resolve_function(self.fi.module, n.func.id)
+            if target is None or target is not table[n.func.id] or target.node is self.fi.node:
+                return n
+            a = target.node.args
+            pos, kwonly = [x.arg for x in a.args], [x.arg for x in a.kwonlyargs]
+            if len(n.args) > len(pos) or any(isinstance(x, ast.Starred) for x in n.args) or any(k.arg is None for k in n.keywords):
+                return n
+            bind = dict(zip(pos, n.args))
+            for k in n.keywords:
+                if k.arg in bind or k.arg not in pos + kwonly:
+                    return n
+                bind[k.arg] = k.value
+            for p_, dflt in zip(pos[len(pos) - len(a.defaults):], a.defaults):
+                bind.setdefault(p_, dflt)
+            for p_, dflt in zip(kwonly, a.kw_defaults):
+                if dflt is not None:
+                    bind.setdefault(p_, dflt)
+            if set(bind) != set(pos + kwonly) or not all(_pure_expr(v) for v in bind.values()):
+                return n
+            body = [s for s in target.node.body if not (isinstance(s, ast.Expr) and isinstance(s.value, ast.Constant))]
+            new = _Subst(bind, {}).visit(copy.deepcopy(body[0].value))
+            for x in ast.walk(new):
+                ast.copy_location(x, n)
+            done.setdefault(self.fi.site, []).append(n.func.id)
+            return new
+    for m in index.modules.values():
+        funcs = list(m.functions.values()) + [f for c in m.all_classes() for fs in c.methods.values() for f in fs]
+        for f in funcs:
+            T(f).visit(f.node)
+            ast.fix_missing_locations(f.node)
+    return done
+
+
+# ---- walrus ---------------------------------------------------------------------------------------------------------------------
+def desugar_walrus(index):
+    """`if (x := E) < y:` / `v = f((x := E), ...)` with the named expression evaluated unconditionally and first in its statement
+    is `x = E` followed by the statement with `x` in its place."""
+    done = {}
+
+    def first_unconditional(expr):
+        """the NamedExpr nodes of expr that are evaluated whenever expr is, in evaluation order (not under and/or/if-else/lambda/comprehension)"""
+        out = []
+
+        def rec(e):
+            if isinstance(e, (ast.BoolOp, ast.IfExp)):
+                rec(e.values[0] if isinstance(e, ast.BoolOp) else e.test)
+                return
+            if isinstance(e, (ast.Lambda, ast.ListComp, ast.SetComp, ast.DictComp, ast.GeneratorExp)):
+                return
+            if isinstance(e, ast.NamedExpr):
+                rec(e.value)
+                out.append(e)
+                return
+            for ch in ast.iter_child_nodes(e):
+                if isinstance(ch, ast.expr):
+                    rec(ch)
+        rec(expr)
+        return out
+
+    def walk_block(stmts, site):
+        i = 0
+        while i < len(stmts):
+            s = stmts[i]
+            for field in ("body", "orelse", "finalbody"):
+                blk = getattr(s, field, None)
+                if isinstance(blk, list) and blk and isinstance(blk[0], ast.stmt) and not isinstance(s, (ast.FunctionDef, ast.AsyncFunctionDef, ast.ClassDef)):
+                    walk_block(blk, site)
+            if isinstance(s, ast.Try):
+                for h in s.handlers:
+                    walk_block(h.body, site)
+            host = s.test if isinstance(s, ast.If) else getattr(s, "value", None) if isinstance(s, (ast.Assign, ast.Expr, ast.Return, ast.AugAssign)) else None
+            if host is not None and any(isinstance(n, ast.NamedExpr) for n in ast.walk(host)):
+                named = first_unconditional(host)
+                allw = [n for n in ast.walk(host) if isinstance(n, ast.NamedExpr)]
+                # every call evaluated before the first named expression must be absent (evaluation order is kept trivially)
+                if named and len(named) == len(allw) and all(isinstance(n.target, ast.Name) for n in named):
+                    first = named[0]
+                    before = [c for c in ast.walk(host) if isinstance(c, ast.Call) and
+                              (c.lineno, c.col_offset) < (first.lineno, first.col_offset) and not any(x is first for x in ast.walk(c))]
+                    if not before:
+                        pre = []
+                        for n in named:
+                            asg = ast.Assign(targets=[ast.Name(id=n.target.id, ctx=ast.Store())], value=n.value)
+                            ast.copy_location(asg, s)
+                            ast.fix_missing_locations(asg)
+                            pre.append(asg)
+
+                        class R(ast.NodeTransformer):
+                            def visit_NamedExpr(self, n):
+                                self.generic_visit(n)
+                                return ast.copy_location(ast.Name(id=n.target.id, ctx=ast.Load()), n)
+                        if isinstance(s, ast.If):
+                            s.test = R().visit(s.test)
+                        else:
+                            s.value = R().visit(s.value)
+                        # the assignments' values may themselves have contained named expressions (already emitted in order)
+                        for a_ in pre:
+                            a_.value = R().visit(a_.value)
+                        ast.fix_missing_locations(s)
+                        stmts[i:i] = pre
+                        i += len(pre)
+                        done[site] = done.get(site, 0) + len(pre)
+            i += 1
+    for m in index.modules.values():
+        funcs = list(m.functions.values()) + [f for c in m.all_classes() for fs in c.methods.values() for f in fs]
+        for f in funcs:
+            walk_block(f.node.body, f.site)
+    return done
+
+
+# ---- named records ---------------------------------------------------------------------------------------------------------------
+def tuples_for_named_records(index):
+    """A private `class _Entry(NamedTuple)` used for the rows of a table (`self._registers[id(reg)] = _Entry(reg, name, offset)`) is the
+    plain tuple it replaces: the constructor call becomes the tuple display, and `x.offset` becomes `x[2]` for every local that
+    is bound (once) to a row of such a table -- `for x in self.T.values()`, `x = self.T[k]`, `x = self.T.get(k)`.  Only tables
+    whose every store is a call of the one record class are treated this way."""
+    records = {}
+    for c in index.all_classes():
+        if c.name.startswith("_") and any(b.split(".")[-1] == "NamedTuple" for b in c.bases):
+            fields = [s.target.id for s in c.node.body if isinstance(s, ast.AnnAssign) and isinstance(s.target, ast.Name)]
+            if fields and not c.methods:
+                records[c.name] = fields
+    if not records:
+        return {}
+    done = {}
+    # tables: self.<T>[...] = Rec(...)
+    stores = {}
+    for m in index.modules.values():
+        for n in ast.walk(m.tree):
+            if isinstance(n, ast.Assign) and len(n.targets) == 1 and isinstance(n.targets[0], ast.Subscript) and _self_attr(n.targets[0].value):
+                v = n.value
+                kind = v.func.id if isinstance(v, ast.Call) and isinstance(v.func, ast.Name) and v.func.id in records else None
+                stores.setdefault(_self_attr(n.targets[0].value), set()).add(kind)
+    tables = {t: next(iter(k)) for t, k in stores.items() if len(k) == 1 and None not in k}
+
+    def ctor_to_tuple(n, fields):
+        if any(isinstance(a, ast.Starred) for a in n.args) or any(k.arg is None or k.arg not in fields for k in n.keywords):
+            return None
+        vals = dict(zip(fields, n.args))
+        for k in n.keywords:
+            if k.arg in vals:
+                return None
+            vals[k.arg] = k.value
+        if set(vals) != set(fields):
+            return None
+        return ast.copy_location(ast.Tuple(elts=[vals[f] for f in fields], ctx=ast.Load()), n)
+
+    class Ctor(ast.NodeTransformer):
+        def visit_Call(self, n):
+            self.generic_visit(n)
+            if isinstance(n.func, ast.Name) and n.func.id in records:
+                t = ctor_to_tuple(n, records[n.func.id])
+                if t is not None:
+                    return t
+            return n
+
+    def row_source(e):
+        """record class of an expression that denotes a row of a record table"""
+        if isinstance(e, ast.Subscript) and _self_attr(e.value) in tables:
+            return tables[_self_attr(e.value)]
+        if isinstance(e, ast.Call) and isinstance(e.func, ast.Attribute) and e.func.attr == "get" and _self_attr(e.func.value) in tables and len(e.args) == 1:
+            return tables[_self_attr(e.func.value)]
+        return None
+
+    for m in index.modules.values():
+        funcs = list(m.functions.values()) + [f for c in m.all_classes() for fs in c.methods.values() for f in fs]
+        for f in funcs:
+            Ctor().visit(f.node)
+            typed = {}
+            counts = {}
+            for n in ast.walk(f.node):
+                if isinstance(n, ast.Name) and isinstance(n.ctx, ast.Store):
+                    counts[n.id] = counts.get(n.id, 0) + 1
+            for n in ast.walk(f.node):
+                if isinstance(n, ast.Assign) and len(n.targets) == 1 and isinstance(n.targets[0], ast.Name):
+                    r = row_source(n.value)
+                    if r:
+                        typed[n.targets[0].id] = r
+                if isinstance(n, (ast.For, ast.comprehension)) and isinstance(n.target, ast.Name) and isinstance(n.iter, ast.Call) and \
+                        isinstance(n.iter.func, ast.Attribute) and n.iter.func.attr == "values" and _self_attr(n.iter.func.value) in tables:
+                    typed[n.target.id] = tables[_self_attr(n.iter.func.value)]
+            typed = {k: v for k, v in typed.items() if counts.get(k) == 1}
+            if not typed:
+                ast.fix_missing_locations(f.node)
+                continue
+
+            class Fld(ast.NodeTransformer):
+                def visit_Attribute(self, n):
+                    self.generic_visit(n)
+                    if isinstance(n.value, ast.Name) and n.value.id in typed and n.attr in records[typed[n.value.id]] and isinstance(n.ctx, ast.Load):
+                        done[f.site] = done.get(f.site, 0) + 1
+                        return ast.copy_location(ast.Subscript(value=n.value, slice=ast.Constant(value=records[typed[n.value.id]].index(n.attr)),
+                                                               ctx=ast.Load()), n)
+                    return n
+            Fld().visit(f.node)
+            ast.fix_missing_locations(f.node)
+    return done
